@@ -8,7 +8,7 @@
 
 Nothing of the repository is executed: the interpreter reads the AST, statement by statement."""
 from __future__ import annotations
-import ast
+import ast, itertools
 from fractions import Fraction
 from .. import au, sym
 from ..sym import Poly
@@ -16,26 +16,47 @@ from ..sym import Poly
 ANY = "any"
 F0, F1 = Fraction(0), Fraction(1)
 TOP = None  # deps of an empty container
+UNKNOWN_DEP = "?"
+ALL = frozenset([UNKNOWN_DEP])  # marker inside a dependence set: the value may also depend on things the interpreter did not see (never refutes)
+
+
+def has_dep(deps, name):
+    return deps is not None and name in deps
 
 
 class AV:
-    __slots__ = ("deg", "aff", "deps", "shape", "items", "verts", "missing", "unit", "sym")
+    __slots__ = ("deg", "aff", "deps", "shape", "items", "verts", "missing", "unit", "sym", "val", "_empty")
 
     def __init__(self, deg=None, aff=None, deps=frozenset(), shape=None, items=None, verts=None, missing=None, unit=False):
         self.deg, self.aff, self.deps, self.shape = deg, aff, deps, shape
         self.items, self.verts, self.missing = items, verts, dict(missing or {})
         self.unit = unit   # True for values known to lie in [0, 1] (not used for alarms)
         self.sym = None    # SV: symbolic scalar / unit-vector facts (only filled when Config.unit is on)
+        self.val = None    # Poly: symbolic value of an integer scalar (sizes are named in the caller's parameters)
+        self._empty = False
+
+    @property
+    def empty(self):
+        """an array with no row / a mesh with no vertex / an empty list: carries no coordinates"""
+        if self._empty:
+            return True
+        v = self.verts if self.verts is not None else self
+        return bool(v.shape) and isinstance(v.shape[0], Poly) and v.shape[0].is_zero()
 
     def copy(self, **kw):
         o = AV(self.deg, self.aff, self.deps, self.shape, self.items, self.verts, self.missing, self.unit)
         o.sym = self.sym
+        o.val = self.val
         for k, v in kw.items():
             setattr(o, k, v)
         return o
 
+    @property
+    def opaque(self):
+        return self.deps is not None and UNKNOWN_DEP in self.deps
+
     def __repr__(self):
-        return f"AV(deg={self.deg}, aff={self.aff}, deps={sorted(self.deps) if self.deps is not None else 'TOP'}, shape={self.shape})"
+        return f"AV(deg={self.deg}, aff={self.aff}, deps={self.deps if self.deps is None else sorted(self.deps)}, shape={self.shape})"
 
 
 # ------------------------------------------------------------------ symbolic scalars / unit vectors (R-DIM "unit vector" fact)
@@ -74,10 +95,25 @@ class SV:
     """sx: symbolic value of a scalar; comps: components of an explicit vector; isvec: a 3-vector; unorm: proved to
     have norm 1; israd: a bare radius parameter; vid: identity of an opaque vector (for its .x/.y/.z atoms);
     normof: source text of x when the value is norm(x)."""
-    __slots__ = ("sx", "comps", "isvec", "unorm", "israd", "vid", "normof")
+    __slots__ = ("sx", "comps", "isvec", "unorm", "israd", "vid", "normof", "refuted", "arr")
 
-    def __init__(self, sx=None, comps=None, isvec=False, unorm=False, israd=False, vid=None, normof=None):
+    def __init__(self, sx=None, comps=None, isvec=False, unorm=False, israd=False, vid=None, normof=None, refuted=None):
         self.sx, self.comps, self.isvec, self.unorm, self.israd, self.vid, self.normof = sx, comps, isvec, unorm, israd, vid, normof
+        self.refuted = refuted      # text of the squared norm when it is provably not 1 (a vector that is provably not unit)
+        self.arr = False            # an array: the facts describe its generic element (atoms marked with GEN, instantiated per loop)
+
+
+GEN = "•"
+UNK = "¿"      # prefix of the atom of a scalar whose value is unknown (it may be constrained: proofs may use it, refutations may not)
+_VID = itertools.count(1)
+
+
+def rename_poly(P, f):
+    t = {}
+    for k, v in P.t.items():
+        kk = tuple(sorted(f(a) for a in k))
+        t[kk] = t.get(kk, 0) + v
+    return Poly(t)
 
 
 def join_sv(a, b):
@@ -90,7 +126,8 @@ def join_sv(a, b):
     if a.comps is not None and b.comps is not None and len(a.comps) == len(b.comps) \
             and all(x is not None and y is not None and x.same(y) for x, y in zip(a.comps, b.comps)):
         comps = a.comps
-    return SV(sx, comps, a.isvec and b.isvec, a.unorm and b.unorm, a.israd and b.israd, a.vid if a.vid == b.vid else None, None)
+    return SV(sx, comps, a.isvec and b.isvec, a.unorm and b.unorm, a.israd and b.israd, a.vid if a.vid == b.vid else None, None,
+              a.refuted or b.refuted)
 
 
 def subst_square(P, a, Q):
@@ -241,7 +278,8 @@ def join_shape(a, b):
     if a is None or b is None:
         return None
     if len(a) != len(b):
-        return None
+        # e.g. a list of n points and an (n, 3) array: the leading dimension is what the two have in common
+        return (_jdim(a[0], b[0]),) if a and b else None
     return tuple(_jdim(x, y) for x, y in zip(a, b))
 
 
@@ -256,21 +294,32 @@ def join_av(a, b, label_a="", label_b=""):
     elif b.deps is None:
         deps = a.deps
     else:
-        deps = a.deps & b.deps
+        deps = (a.deps & b.deps) | ((a.deps | b.deps) & ALL)
     missing = dict(a.missing)
     missing.update(b.missing)
-    if a.deps is not None and b.deps is not None:
+    if a.deps is not None and b.deps is not None and UNKNOWN_DEP not in (a.deps | b.deps):
         for d in a.deps - b.deps:
             missing.setdefault(d, label_b)
         for d in b.deps - a.deps:
             missing.setdefault(d, label_a)
     verts = join_av(a.verts, b.verts, label_a, label_b) if (a.verts is not None and b.verts is not None) else None
+    if verts is None and (a.verts is None) != (b.verts is None):
+        # `return as_point_cloud(pts) if flag else pts`: coordinates either way
+        m, arr = (a, b) if a.verts is not None else (b, a)
+        if arr.deg is not None and arr.items is None:
+            verts = join_av(m.verts, arr, label_a, label_b)
     items = None
     if a.items is not None and b.items is not None and len(a.items) == len(b.items):
         items = [join_av(x, y, label_a, label_b) for x, y in zip(a.items, b.items)]
+    if a.empty != b.empty:
+        # an empty special-case value joined with the real result: the result carries the coordinates
+        keep = b if a.empty else a
+        out = keep.copy()
+        return out
     out = AV(join_deg(a.deg, b.deg), join_deg(a.aff, b.aff), deps, join_shape(a.shape, b.shape), items, verts, missing,
              a.unit and b.unit)
     out.sym = join_sv(a.sym, b.sym)
+    out._empty = a.empty and b.empty
     return out
 
 
@@ -284,7 +333,7 @@ def elem_join(container, new):
     deps = dunion(container.deps, new.deps)
     missing = dict(container.missing)
     missing.update(new.missing)
-    missing = {k: v for k, v in missing.items() if k not in deps}
+    missing = {k: v for k, v in missing.items() if not has_dep(deps, k)}
     return AV(deg, aff, deps, container.shape, None, None, missing), bad
 
 
@@ -322,18 +371,38 @@ class Config:
 
 
 class Interp:
-    def __init__(self, fn, cfg, args=None, depth=0):
+    def __init__(self, fn, cfg, args=None, depth=0, closure=None, local_funcs=None):
         self.fn, self.cfg, self.depth = fn, cfg, depth
+        self.closure = dict(closure or {})          # environment of the enclosing function (nested helpers read its variables)
+        self.local_funcs = dict(local_funcs or {})  # name -> nested FunctionDef / Lambda visible here
         self.events = []      # (node, kind, detail)
         self.returns = []     # (node, AV)
         self.fills = []       # (node, rows of the array, trip count of the loop whose index addresses the row)
+        self.appended = {}       # id(call) -> shape of the value appended by that call
         self.vertex_stores = []  # (node, AV) coordinates written into a vertex container
         self.loop_len = {}
         self.unit_obl = {}     # id(node) -> [node, proved on every pass, kind, detail]
         self.sq, self.trig, self.triples = {}, {}, {}
         self._vid = 0
         self.params = au.params(fn)
-        env = {}
+        self.cur_env = {}
+        # every name bound anywhere in the function (a read of such a name that the environment does not know comes from a binding
+        # form the interpreter does not model: its provenance is unknown, not "independent of the parameters")
+        self.assigned = set()
+        for n in ast.walk(fn):
+            if isinstance(n, ast.Name) and isinstance(n.ctx, (ast.Store, ast.Del)):
+                self.assigned.add(n.id)
+            elif isinstance(n, ast.ExceptHandler) and n.name:
+                self.assigned.add(n.name)
+            elif isinstance(n, (ast.FunctionDef, ast.AsyncFunctionDef, ast.ClassDef)) and n is not fn:
+                self.assigned.add(n.name)
+        self.attr_stores = set()
+        for n in ast.walk(fn):
+            if isinstance(n, ast.Attribute) and isinstance(n.ctx, ast.Store):
+                c = au.chain(n)
+                if c:
+                    self.attr_stores.add(".".join(c))
+        env = dict(self.closure)
         a = fn.args
         pos = a.posonlyargs + a.args
         defaults = dict(zip([p.arg for p in pos[len(pos) - len(a.defaults):]], a.defaults))
@@ -349,7 +418,12 @@ class Interp:
                 d, f = self.cfg.geo[p]
                 env[p] = AV(d, f, frozenset([p]), None)
             else:
-                env[p] = AV(F0, F0, frozenset([p]), ())
+                if _countlike(fn, p, defaults.get(p)):
+                    env[p] = AV(F0, F0, frozenset([p]), ())
+                    env[p].val = Poly.atom(p)
+                else:
+                    # neither declared geometric nor visibly a count / switch: nothing is assumed about its dimension
+                    env[p] = AV(None, None, frozenset([p]), None)
         if self.cfg.unit:
             for p in self.params:
                 if env[p].sym is not None:
@@ -364,8 +438,34 @@ class Interp:
 
     # ------------------------------------------------------------------ symbolic layer
     def new_vid(self):
-        self._vid += 1
-        return f"v{self._vid}"
+        return f"v{next(_VID)}"
+
+    def inst(self, v, tag, axis=None):
+        """the element of an array taken by the loop `tag`: the generic atoms of its facts become atoms of that iteration.
+        With `axis` the array stays generic but its entries are those along that axis of a grid (meshgrid / outer / x[:, None]):
+        the generic index is renamed so that entries taken along different axes are different symbols."""
+        if v is None or not v.arr:
+            return v
+        new = ("@" + str(tag)) if axis is None else (GEN + "a%d" % axis)
+
+        def f(a):
+            if GEN not in a:
+                return a
+            b = a.replace(GEN, new)
+            if a in self.trig:
+                self.trig[b] = self.trig[a].replace(GEN, new)
+            if a in self.sq:
+                self.sq[b] = rename_poly(self.sq[a], f)
+            if a in self.triples:
+                self.triples[b] = tuple(x.replace(GEN, new) for x in self.triples[a])
+            return b
+
+        def rr(x):
+            return None if x is None else Rat(rename_poly(x.num, f), rename_poly(x.den, f))
+        out = SV(rr(v.sx), [rr(c) for c in v.comps] if v.comps is not None else None, v.isvec, v.unorm, False,
+                 v.vid.replace(GEN, new) if v.vid else None, None, v.refuted)
+        out.arr = axis is not None
+        return out
 
     def reduce(self, P):
         """normal form modulo sqrt(E)**2 = E, cos**2 = 1 - sin**2, |u| = 1 for proved unit vectors"""
@@ -393,14 +493,65 @@ class Interp:
             tot = tot + c * c
         return self.reduce(tot.num - tot.den).is_zero() and not tot.den.is_zero()
 
-    def obligation(self, node, ok, kind, detail, tag=""):
+    def norm_residual(self, comps):
+        """text of |v|^2 when the components are all known and |v|^2 - 1 does not reduce to 0 (provably not a unit vector:
+        every atom of the symbolic layer is free up to the identities `reduce` applies); None otherwise"""
+        if comps is None or any(c is None for c in comps):
+            return None
+        tot = Rat(Poly())
+        for c in comps:
+            tot = tot + c * c
+        if tot.den.is_zero():
+            return None
+        res = self.reduce(tot.num - tot.den)
+        if res.is_zero():
+            return None
+        if any(UNK in a for a in res.atoms()):
+            return None         # involves a value the analysis does not know: not a refutation
+        num = self.reduce(tot.num)
+        return str(num) if tot.den == Poly.const(1) else f"({num})/({self.reduce(tot.den)})"
+
+    def status(self, v):
+        """(proved unit, refutation text | None) of a symbolic vector"""
+        if v is None:
+            return False, None
+        if v.unorm or self.is_unit(v.comps):
+            return True, None
+        return False, v.refuted or self.norm_residual(v.comps)
+
+    def comps_of(self, v):
+        """components of a symbolic vector: explicit ones, or the atoms vid.x / vid.y / vid.z of a named opaque vector"""
+        if v is None or not v.isvec:
+            return None
+        if v.comps is not None and len(v.comps) == 3 and all(c is not None for c in v.comps):
+            return list(v.comps)
+        if v.vid is not None and v.comps is None:
+            if v.unorm:
+                self.triples[f"{v.vid}.z"] = (f"{v.vid}.x", f"{v.vid}.y")
+            return [Rat(Poly.atom(f"{v.vid}.{a}")) for a in "xyz"]
+        return None
+
+    def obligation(self, node, ok, kind, detail, tag="", refuted=None):
         cur = self.unit_obl.get((id(node), tag))
         if cur is None:
-            self.unit_obl[(id(node), tag)] = [node, bool(ok), kind, detail]
+            self.unit_obl[(id(node), tag)] = [node, bool(ok), kind, detail, refuted if not ok else None]
         else:
             cur[1] = cur[1] and bool(ok)
             if not ok:
                 cur[3] = detail
+                cur[4] = cur[4] or refuted
+
+    def coeff_obligations(self, node, comps):
+        """explicit coordinates that are linear in a radius: the coefficient vector of the radius must be a unit vector"""
+        for r in sorted(self.radius_atoms()):
+            if not any(r in x.num.atoms() or r in x.den.atoms() for x in comps):
+                continue
+            if any(r in x.den.atoms() or x.num.degree_in(r) > 1 for x in comps):
+                continue   # not linear in the radius: left to the degree rule
+            coeff = [Rat(x.num.coeff(r), x.den) for x in comps]
+            self.obligation(node, self.is_unit(coeff), "radius-coefficient",
+                            f"d/d{r} = ({', '.join(str(q.num) if q.den == Poly.const(1) else q.key() for q in coeff)})", tag=r,
+                            refuted=self.norm_residual(coeff))
 
     def radius_atoms(self):
         return {p for p, (d, f) in self.cfg.geo.items() if d == 1 and f == 0 and "." not in p}
@@ -415,7 +566,11 @@ class Interp:
                 if isinstance(c, ast.expr) and not isinstance(c, (ast.ListComp, ast.GeneratorExp, ast.SetComp, ast.DictComp, ast.Lambda)):
                     self.sv(c, env)
             return None
-        return m(e, env)
+        out = m(e, env)
+        if out is not None and out.isvec and not out.unorm and out.refuted is None and out.comps is not None:
+            # a vector with known components whose squared norm does not reduce to 1 is remembered as provably not unit
+            out.refuted = self.norm_residual(out.comps)
+        return out
 
     def sv_Constant(self, e, env):
         if isinstance(e.value, (int, float)) and not isinstance(e.value, bool):
@@ -452,8 +607,23 @@ class Interp:
         if isinstance(e.value, ast.Attribute) and e.value.attr == "vertices":
             return SV(isvec=True)
         if base is not None and base.isvec and base.comps is not None and isinstance(au.const(e.slice), int) \
-                and 0 <= au.const(e.slice) < len(base.comps):
+                and 0 <= au.const(e.slice) < len(base.comps) and not base.arr:
             return SV(sx=base.comps[au.const(e.slice)])
+        if base is not None and base.arr and isinstance(e.slice, ast.Tuple) and len(e.slice.elts) == 2 and base.sx is not None:
+            a_, b_ = e.slice.elts
+            isnew = lambda x: (isinstance(x, ast.Constant) and x.value is None) or (isinstance(x, ast.Attribute) and x.attr == "newaxis")
+            full = lambda x: isinstance(x, ast.Slice) and x.lower is None and x.upper is None and x.step is None
+            if full(a_) and isnew(b_):
+                return self.inst(base, None, axis=0)
+            if isnew(a_) and full(b_):
+                return self.inst(base, None, axis=1)
+        if base is not None and base.arr and base.isvec and base.comps is not None:
+            last = e.slice.elts[-1] if isinstance(e.slice, ast.Tuple) and e.slice.elts else None
+            k = au.const(last) if last is not None else None
+            if isinstance(k, int) and not isinstance(k, bool) and 0 <= k < len(base.comps) and base.comps[k] is not None:
+                out = SV(sx=base.comps[k])
+                out.arr = True
+                return out
         return None
 
     def sv_UnaryOp(self, e, env):
@@ -464,17 +634,24 @@ class Interp:
             return v
         return SV(sx=-v.sx if v.sx is not None else None,
                   comps=[-c if c is not None else None for c in v.comps] if v.comps is not None else None,
-                  isvec=v.isvec, unorm=v.unorm)
+                  isvec=v.isvec, unorm=v.unorm, refuted=v.refuted)
 
     def sv_BinOp(self, e, env):
         a, b = self.sv(e.left, env), self.sv(e.right, env)
         if a is None or b is None:
             return None
+        out = self._sv_BinOp(e, a, b)
+        if out is not None and (a.arr or b.arr):
+            out.arr = True
+        return out
+
+    def _sv_BinOp(self, e, a, b):
         op = e.op
         if isinstance(op, ast.Mult):
             for r, d, dn in ((a, b, e.right), (b, a, e.left)):
                 if r.israd and d.isvec:
-                    self.obligation(e, d.unorm or self.is_unit(d.comps), "radius-times-direction", au.src(dn))
+                    okd, ref = self.status(d)
+                    self.obligation(e, okd, "radius-times-direction", au.src(dn), refuted=ref)
             if a.isvec and b.isvec:
                 return None
             if a.isvec or b.isvec:
@@ -511,7 +688,49 @@ class Interp:
             return SV(sx=out)
         return None
 
+    def sv_NamedExpr(self, e, env):
+        s_ = self.sv(e.value, env)
+        cur = env.get(e.target.id)
+        env[e.target.id] = (cur.copy(sym=s_) if cur is not None else AV(None, None, ALL, None).copy(sym=s_))
+        return s_
+
+    def sv_Tuple(self, e, env):
+        vals = [self.sv(x.value if isinstance(x, ast.Starred) else x, env) for x in e.elts]
+        if vals and all(v is not None and v.sx is not None and not v.isvec for v in vals):
+            out = SV(comps=[v.sx for v in vals], isvec=False)      # a tuple of scalars (not a vector): unpacked by `assign`
+            out.arr = any(v.arr for v in vals)
+            return out
+        return None
+
+    sv_List = sv_Tuple
+
+    def sv_ListComp(self, e, env):
+        env2 = dict(env)
+        for g in e.generators:
+            self.bind_iter(g.target, g.iter, env2, e, GEN)
+            for name in au.assigned_names(g.target):
+                self.loop_len.pop(name, None)
+            for c in g.ifs:
+                self.sv(c, env2)
+        s_ = self.sv(e.elt, env2)
+        if s_ is None:
+            return None
+        out = SV(s_.sx, s_.comps, s_.isvec, s_.unorm, False, s_.vid, None, s_.refuted)
+        out.arr = True
+        return out
+
+    sv_GeneratorExp = sv_ListComp
+
     def sv_Call(self, c, env):
+        out = self._sv_Call(c, env)
+        if out is not None and not out.arr:
+            # element-wise functions of an array describe the generic element of the result
+            srcs = [self.sv(a, env) for a in c.args[:1]]
+            if any(x is not None and x.arr for x in srcs) and au.call_tail(c) in ("sin", "cos", "sqrt", "array", "asarray", "float", "abs"):
+                out.arr = True
+        return out
+
+    def _sv_Call(self, c, env):
         tail = au.call_tail(c)
         args = [self.sv(a.value if isinstance(a, ast.Starred) else a, env) for a in c.args]
         for k in c.keywords:
@@ -522,26 +741,77 @@ class Interp:
         first_node = c.args[0] if c.args else recv_node
         if tail == "Vec":
             if len(args) == 1:
+                if args[0] is not None and args[0].isvec and args[0].comps is not None and all(x is not None for x in args[0].comps):
+                    self.coeff_obligations(c, args[0].comps)       # a row of explicit coordinates turned into a point
                 return args[0] if (args[0] is not None and args[0].isvec) else SV(isvec=True)
             if len(args) in (2, 3):
                 comps = [a.sx if a is not None else None for a in args]
                 known = all(x is not None for x in comps)
                 out = SV(comps=comps if known else None, isvec=True, unorm=known and self.is_unit(comps))
+                if known and not out.unorm:
+                    out.refuted = self.norm_residual(comps)
                 if known:
-                    for r in sorted(self.radius_atoms()):
-                        if not any(r in x.num.atoms() or r in x.den.atoms() for x in comps):
-                            continue
-                        if any(r in x.den.atoms() or x.num.degree_in(r) > 1 for x in comps):
-                            continue   # not linear in the radius: left to the degree rule
-                        coeff = [Rat(x.num.coeff(r), x.den) for x in comps]
-                        self.obligation(c, self.is_unit(coeff), "radius-coefficient",
-                                        f"d/d{r} = ({', '.join(str(q.num) if q.den == Poly.const(1) else q.key() for q in coeff)})", tag=r)
+                    self.coeff_obligations(c, comps)
                 return out
             return SV(isvec=True)
         if tail in ("normalized", "normalize"):
             return SV(isvec=True, unorm=True, vid=self.new_vid())
+        if tail == "meshgrid" and len(args) == 2 and all(a is not None and a.arr and a.sx is not None for a in args):
+            ij = next((au.const(k.value) for k in c.keywords if k.arg == "indexing"), "xy") == "ij"
+            ax = (0, 1) if ij else (1, 0)
+            out = SV(comps=[self.inst(args[0], None, axis=ax[0]).sx, self.inst(args[1], None, axis=ax[1]).sx], isvec=False)
+            out.arr = True
+            return out
+        if tail == "outer" and len(args) == 2 and all(a is not None and a.arr and a.sx is not None for a in args):
+            out = SV(sx=self.inst(args[0], None, axis=0).sx * self.inst(args[1], None, axis=1).sx)
+            out.arr = True
+            return out
+        if tail in ("column_stack", "stack", "array", "vstack") and c.args and isinstance(c.args[0], (ast.Tuple, ast.List)) \
+                and 2 <= len(c.args[0].elts) <= 3:
+            parts = [self.sv(x, env) for x in c.args[0].elts]
+            axis_kw = next((au.const(k.value) for k in c.keywords if k.arg == "axis"), None)
+            as_rows = tail == "column_stack" or (tail == "stack" and axis_kw in (-1, 1))
+            if as_rows and all(p is not None and p.sx is not None and p.arr for p in parts):
+                out = SV(comps=[p.sx for p in parts], isvec=True)
+                out.arr = True
+                return out
+        if tail in ("empty", "zeros") and c.args and isinstance(c.args[0], (ast.Tuple, ast.List)) and c.args[0].elts \
+                and au.const(c.args[0].elts[-1]) in (2, 3) and len(c.args[0].elts) >= 2:
+            out = SV(comps=[None] * au.const(c.args[0].elts[-1]), isvec=True)
+            out.arr = True
+            return out
+        if tail in ("ravel", "flatten", "reshape", "copy", "astype", "squeeze") and recv is not None and recv.arr:
+            return recv
+        if tail == "arange" and len(c.args) == 1 and not c.keywords:
+            out = SV(sx=Rat(Poly.atom("idx" + GEN + "⟨" + au.src(c.args[0]) + "⟩")))
+            out.arr = True
+            return out
+        if tail == "linspace" and len(c.args) >= 3 and args[0] is not None and args[1] is not None and args[2] is not None \
+                and all(a.sx is not None for a in args[:3]):
+            ep = next((k.value for k in c.keywords if k.arg == "endpoint"), None)
+            ep = True if ep is None else au.const(ep)
+            if isinstance(ep, bool):
+                k = Rat(Poly.atom("idx" + GEN + "⟨" + au.src(c.args[2]) + "⟩"))
+                den = args[2].sx if not ep else args[2].sx - Rat(Poly.const(1))
+                if not den.num.is_zero():
+                    out = SV(sx=args[0].sx + (args[1].sx - args[0].sx) * k / den)
+                    out.arr = True
+                    return out
         if tail in ROT and args:
-            return SV(isvec=True, unorm=bool(args[0] is not None and (args[0].unorm or self.is_unit(args[0].comps))), vid=self.new_vid())
+            okd, ref = self.status(args[0])
+            return SV(isvec=True, unorm=okd, vid=self.new_vid(), refuted=ref)
+        if tail in ("X", "Y", "Z") and not c.args and isinstance(c.func, ast.Attribute) and au.src(c.func.value) == "Vec":
+            k = "XYZ".index(tail)
+            return SV(comps=[Rat(Poly.const(1 if i == k else 0)) for i in range(3)], isvec=True, unorm=True)
+        if tail == "cross" and len(args) == 2:
+            a, b = self.comps_of(args[0]), self.comps_of(args[1])
+            if a is not None and b is not None:
+                comps = [a[1] * b[2] - a[2] * b[1], a[2] * b[0] - a[0] * b[2], a[0] * b[1] - a[1] * b[0]]
+                out = SV(comps=comps, isvec=True, unorm=self.is_unit(comps))
+                if not out.unorm:
+                    out.refuted = self.norm_residual(comps)
+                return out
+            return SV(isvec=True)
         if tail == "norm":
             return SV(normof=au.src(first_node) if first_node is not None else None)
         if tail in ("sin", "cos") and first is not None and first.sx is not None and len(c.args) == 1:
@@ -554,7 +824,7 @@ class Interp:
             name = f"sqrt⟨{first.sx.num}⟩"
             self.sq[name] = first.sx.num
             return SV(sx=Rat(Poly.atom(name)))
-        if tail in ("float", "int", "abs") and len(args) == 1 and tail != "abs":
+        if tail in ("float", "int", "abs", "array", "asarray", "asanyarray", "ascontiguousarray") and len(args) >= 1 and tail != "abs":
             return args[0]
         if tail in ("cross",):
             return SV(isvec=True)
@@ -566,11 +836,19 @@ class Interp:
         return self
 
     def topoly(self, e):
+        env = self.cur_env
+
         def atom_of(n):
             if isinstance(n, ast.Attribute):
                 c = au.chain(n)
                 if c:
                     return ".".join(c)
+            if isinstance(n, ast.Name) and n.id in env:
+                v = env[n.id]
+                if v.val is not None:
+                    return v.val
+                if n.id not in self.env0:
+                    return "⟨" + n.id + "@" + self.fn.name + "⟩"    # a local of unknown value: never equal to a parameter of that name
             return None
         try:
             return sym.to_poly(e, atom_of)
@@ -591,10 +869,21 @@ class Interp:
         return env
 
     def stmt(self, st, env):
+        self.cur_env = env
         if isinstance(st, ast.Return):
             if st.value is not None:
-                self.returns.append((st, self.ev(st.value, env)))
-                self.sv(st.value, env)
+                rv = self.ev(st.value, env)
+                nd = self.__dict__.get("none_deps") or []
+                if nd:
+                    extra = dunion(*nd)
+                    rv = rv.copy(deps=dunion(rv.deps, extra))
+                    if rv.verts is not None:
+                        rv.verts = rv.verts.copy(deps=dunion(rv.verts.deps, extra))
+                if self.cfg.unit:
+                    sv_ = self.sv(st.value, env)
+                    if sv_ is not None and rv.sym is None:
+                        rv = rv.copy(sym=sv_)
+                self.returns.append((st, rv))
             return None
         if isinstance(st, ast.Raise):
             return None
@@ -602,16 +891,42 @@ class Interp:
             if isinstance(st, ast.AnnAssign) and st.value is None:
                 return env
             v = self.ev(st.value, env)
+            if v.val is None and v.shape == () or (v.val is None and v.shape is None and isinstance(st.value, (ast.BinOp, ast.Name, ast.Constant))):
+                pv = self.topoly(st.value)
+                unknown_local = any(n in self.assigned and n not in self.env0 and (n not in env or env[n].val is None) for n in au.names(st.value))
+                if pv is not None and not unknown_local and not any("@" in a for a in pv.atoms()):
+                    v = v.copy(val=pv)
             if self.cfg.unit:
                 sv_ = self.sv(st.value, env)
                 tg = st.targets[0] if isinstance(st, ast.Assign) else st.target
                 if isinstance(tg, (ast.Tuple, ast.List)) and isinstance(st.value, (ast.Tuple, ast.List)) \
                         and len(tg.elts) == len(st.value.elts) and v.items is not None:
                     v = v.copy(items=[it.copy(sym=self.sv(x, env)) for it, x in zip(v.items, st.value.elts)])
-                else:
+                elif sv_ is not None or v.sym is None or not isinstance(st.value, ast.Call):
                     v = v.copy(sym=sv_)
+            if isinstance(st.value, ast.Lambda):
+                for t in (st.targets if isinstance(st, ast.Assign) else [st.target]):
+                    if isinstance(t, ast.Name):
+                        self.local_funcs[t.id] = st.value
+            comp_store = None
+            if self.cfg.unit:
+                tg0 = st.targets[0] if isinstance(st, ast.Assign) else st.target
+                if isinstance(tg0, ast.Subscript) and isinstance(tg0.value, ast.Name) and tg0.value.id in env:
+                    cs = env[tg0.value.id].sym
+                    last = tg0.slice.elts[-1] if isinstance(tg0.slice, ast.Tuple) and tg0.slice.elts else None
+                    k_ = au.const(last) if last is not None else None
+                    if cs is not None and cs.arr and cs.isvec and cs.comps is not None and isinstance(k_, int) and not isinstance(k_, bool) \
+                            and 0 <= k_ < len(cs.comps) and all(isinstance(x, ast.Slice) or (isinstance(x, ast.Constant) and x.value is Ellipsis)
+                                                                 for x in tg0.slice.elts[:-1]):
+                        comps = list(cs.comps)
+                        comps[k_] = v.sym.sx if v.sym is not None else None
+                        new = SV(comps=comps, isvec=True)
+                        new.arr = True
+                        comp_store = (tg0.value.id, new)
             for t in (st.targets if isinstance(st, ast.Assign) else [st.target]):
                 self.assign(t, v, st.value, env, st)
+            if comp_store is not None and comp_store[0] in env:
+                env[comp_store[0]] = env[comp_store[0]].copy(sym=comp_store[1])
             return env
         if isinstance(st, ast.AugAssign):
             cur = self.ev(_load(st.target), env)
@@ -630,18 +945,47 @@ class Interp:
             if isinstance(st.value, ast.Call):
                 self.call_effect(st.value, env, st)
                 self.sv(st.value, env)
+                self.may_write(st.value, env)
             return env
         if isinstance(st, ast.If):
             dec = self.cfg.decide(st.test) if self.depth == 0 else None
             if dec is not None:
                 return self.block(st.body if dec else st.orelse, env)
+            nn = _none_test(st.test)
+            stack = self.__dict__.setdefault("none_deps", [])
+            is_none_side = nn is not None and nn[0] in env
+            if is_none_side and nn[1]:
+                stack.append(env[nn[0]].deps)
             e1 = self.block(st.body, dict(env))
+            if is_none_side and nn[1]:
+                stack.pop()
+            if is_none_side and not nn[1]:
+                stack.append(env[nn[0]].deps)
             e2 = self.block(st.orelse, dict(env))
+            if is_none_side and not nn[1]:
+                stack.pop()
+            if nn is not None and nn[0] in env:
+                # default filling: on the branch where the parameter is None its replacement *is* the value of the parameter
+                filled = e1 if nn[1] else e2
+                if filled is not None and nn[0] in filled and filled[nn[0]] is not env[nn[0]]:
+                    filled[nn[0]] = filled[nn[0]].copy(deps=dunion(filled[nn[0]].deps, env[nn[0]].deps))
             la, lb = f"the branch taken when `{au.src(st.test)}` holds", f"the branch taken when `{au.src(st.test)}` fails"
             # nested elif: label the else side by its own test when it is a single If
             if len(st.orelse) == 1 and isinstance(st.orelse[0], ast.If):
                 lb = f"the branch taken when `{au.src(st.orelse[0].test)}` holds"
-            return self.join_env(e1, e2, la, lb, pre=env, implicit_else=not st.orelse)
+            out_env = self.join_env(e1, e2, la, lb, pre=env, implicit_else=not st.orelse)
+            if not st.orelse and e1 is not None and out_env is not None and self._count_test(st.test):
+                # `if n_pts > 0: <fill>`: like a loop over the samples, the guarded code is what produces the result
+                # (with a count of zero there is nothing to produce): the dependences are those of the guarded code
+                for k_ in list(out_env):
+                    if k_ in e1 and out_env[k_] is not e1[k_]:
+                        j_ = out_env[k_].copy(deps=e1[k_].deps)
+                        j_.missing = dict(e1[k_].missing)
+                        if j_.verts is not None and e1[k_].verts is not None:
+                            j_.verts = j_.verts.copy(deps=e1[k_].verts.deps)
+                            j_.verts.missing = dict(e1[k_].verts.missing)
+                        out_env[k_] = j_
+            return out_env
         if isinstance(st, (ast.For, ast.AsyncFor)):
             it = self.ev(st.iter, env)
             self.bind_loop(st, it, env)
@@ -655,7 +999,25 @@ class Interp:
             if e is None:
                 return pre
             out = {}
+            # a loop over all the vertices of a mesh that stores every vertex back replaces the whole container
+            replaced = {}
+            it_src = au.src(st.iter)
+            for s_ in au.stmts(st.body):
+                for tg_ in au.assign_targets(s_):
+                    if isinstance(tg_, ast.Subscript) and isinstance(tg_.value, ast.Attribute) and tg_.value.attr == "vertices":
+                        r_ = au.src(tg_.value.value)
+                        if (r_ + ".id_vertices") in it_src or (r_ + ".vertices") in it_src:
+                            replaced[_root(tg_.value)] = s_
             for k in set(pre) | set(e):
+                if k in replaced and k in e:
+                    stored = next((a for n_, a in self.vertex_stores if n_ is replaced[k]), None)
+                    if stored is not None and e[k].verts is not None:
+                        # every vertex is overwritten: the coordinates are the stored values, whatever the container held before
+                        nv_ = stored.copy(shape=e[k].verts.shape, items=None)
+                        out[k] = e[k].copy(verts=nv_)
+                    else:
+                        out[k] = e[k]
+                    continue
                 if k in pre and k in e:
                     j = join_av(pre[k], e[k])
                     j.deps = e[k].deps          # the loop body is assumed to run (n >= 1)
@@ -665,6 +1027,20 @@ class Interp:
                     out[k] = j
                 else:
                     out[k] = e.get(k, pre.get(k))
+            # a list that is empty before the loop and receives exactly one entry per iteration has as many entries as the iterable
+            if it.shape and isinstance(it.shape[0], Poly) and not st.orelse \
+                    and not any(isinstance(n_, (ast.Break, ast.Continue, ast.Return, ast.Raise)) for n_ in list(au.walk(list(st.body)))):
+                for s_ in st.body:
+                    c_ = s_.value if isinstance(s_, ast.Expr) and isinstance(s_.value, ast.Call) else None
+                    if c_ is None or not (isinstance(c_.func, ast.Attribute) and c_.func.attr == "append" and isinstance(c_.func.value, ast.Name) and len(c_.args) == 1):
+                        continue
+                    k = c_.func.value.id
+                    uses = [n_ for n_ in list(au.walk(list(st.body))) if isinstance(n_, ast.Name) and n_.id == k]
+                    if len(uses) != 1 or k not in pre or k not in out or not (pre[k].shape and len(pre[k].shape) == 1 and isinstance(pre[k].shape[0], Poly)
+                                                                                and pre[k].shape[0].is_const() and pre[k].shape[0].const_value() == 0):
+                        continue
+                    item_shape = self.appended.get(id(c_))
+                    out[k] = out[k].copy(shape=(it.shape[0],) + (tuple(item_shape) if item_shape is not None else (None,)))
             return out
         if isinstance(st, ast.While):
             pre = dict(env)
@@ -674,6 +1050,10 @@ class Interp:
                 if e is None:
                     break
             return self.join_env(pre, e, "", "", pre=pre) if e is not None else pre
+        if isinstance(st, (ast.FunctionDef, ast.AsyncFunctionDef)):
+            self.local_funcs[st.name] = st
+            env[st.name] = unk(ALL)
+            return env
         if isinstance(st, (ast.With, ast.AsyncWith)):
             for item in st.items:
                 v = self.ev(item.context_expr, env)
@@ -693,6 +1073,26 @@ class Interp:
             return cur
         return env
 
+    def _count_test(self, test):
+        """a test that only looks at count-like parameters (n_pts > 0, not n_pts, len(x) == 0 ...)"""
+        names = au.names(test) - {"len", "int", "bool"}
+        if not names:
+            return False
+        for n in names:
+            if n in self.env0 and _countlike(self.fn, n, self._default_of(n)):
+                continue
+            return False
+        return True
+
+    def _default_of(self, p):
+        a = self.fn.args
+        pos = a.posonlyargs + a.args
+        d = dict(zip([x.arg for x in pos[len(pos) - len(a.defaults):]], a.defaults)) if a.defaults else {}
+        for x, dv in zip(a.kwonlyargs, a.kw_defaults):
+            if dv is not None:
+                d[x.arg] = dv
+        return d.get(p)
+
     def join_env(self, e1, e2, la, lb, pre, implicit_else=False):
         if e1 is None:
             return e2
@@ -711,29 +1111,69 @@ class Interp:
         return out
 
     def bind_loop(self, st, it, env):
-        t = st.target
+        tags = self.__dict__.setdefault("_tags", {})
+        self.bind_iter(st.target, st.iter, env, st, "L%d" % tags.setdefault(id(st), len(tags) + 1))
+
+    def bind_iter(self, t, it_expr, env, node, tag):
+        """bind the target of `for t in it_expr` (range / enumerate / zip / plain iterables, nested); returns the trip count"""
+        if isinstance(it_expr, ast.Call) and isinstance(it_expr.func, ast.Name) and not it_expr.keywords:
+            f = it_expr.func.id
+            if f == "range":
+                it = self.ev(it_expr, env)
+                n = it.shape[0] if it.shape else None
+                if isinstance(t, ast.Name):
+                    env[t.id] = scalar0(it.deps)
+                    if self.cfg.unit:
+                        env[t.id].sym = SV(sx=Rat(Poly.atom(t.id if tag != GEN else "idx" + GEN + "⟨" + ", ".join(au.src(a) for a in it_expr.args) + "⟩")))
+                        env[t.id].sym.arr = tag == GEN
+                    self.loop_len[t.id] = (node, n)
+                return n
+            if f == "enumerate" and len(it_expr.args) == 1 and isinstance(t, (ast.Tuple, ast.List)) and len(t.elts) == 2:
+                n = self.bind_iter(t.elts[1], it_expr.args[0], env, node, tag)
+                if isinstance(t.elts[0], ast.Name):
+                    env[t.elts[0].id] = scalar0()
+                    env[t.elts[0].id].sym = SV(sx=Rat(Poly.atom(t.elts[0].id))) if self.cfg.unit and tag != GEN else None
+                    self.loop_len[t.elts[0].id] = (node, n)
+                return n
+            if f == "zip" and isinstance(t, (ast.Tuple, ast.List)) and len(t.elts) == len(it_expr.args):
+                ns = [self.bind_iter(te, a, env, node, tag) for te, a in zip(t.elts, it_expr.args)]
+                return next((x for x in ns if x is not None), None)
+        prod = self._as_product(it_expr, node)
+        if prod is not None and isinstance(t, (ast.Tuple, ast.List)) and len(t.elts) == len(prod):
+            for te, a in zip(t.elts, prod):
+                self.bind_iter(te, a, env, node, tag)
+            return None
+        it = self.ev(it_expr, env)
         n = it.shape[0] if it.shape else None
-        is_enum = isinstance(st.iter, ast.Call) and au.call_tail(st.iter) == "enumerate"
-        is_range = isinstance(st.iter, ast.Call) and au.call_tail(st.iter) == "range"
-        elem = AV(it.deg, it.aff, it.deps, it.shape[1:] if it.shape else None, None, None, it.missing)
-        if is_range:
-            if isinstance(t, ast.Name):
-                env[t.id] = scalar0(it.deps)
-                env[t.id].sym = SV(sx=Rat(Poly.atom(t.id))) if self.cfg.unit else None
-                self.loop_len[t.id] = (st, n)
-            return
-        if is_enum and isinstance(t, ast.Tuple) and len(t.elts) == 2:
-            if isinstance(t.elts[0], ast.Name):
-                env[t.elts[0].id] = scalar0()
-                env[t.elts[0].id].sym = SV(sx=Rat(Poly.atom(t.elts[0].id))) if self.cfg.unit else None
-                self.loop_len[t.elts[0].id] = (st, n)
-            self.assign(t.elts[1], elem, None, env, st)
-            return
-        if self.cfg.unit and isinstance(st.iter, (ast.Tuple, ast.List)) and st.iter.elts:
-            ss = [self.sv(x, env) for x in st.iter.elts]
-            if all(x is not None and x.isvec for x in ss):
-                elem.sym = SV(isvec=True, unorm=all(x.unorm for x in ss), vid=self.new_vid())
-        self.assign(t, elem, None, env, st)
+        elem = AV(it.deg, it.aff, it.deps, it.shape[1:] if it.shape else None, None, None, it.missing, it.unit)
+        if self.cfg.unit:
+            s_it = self.sv(it_expr, env)
+            if s_it is not None and s_it.arr:
+                elem.sym = s_it if tag == GEN else self.inst(s_it, tag)
+            elif isinstance(it_expr, (ast.Tuple, ast.List)) and it_expr.elts:
+                ss = [self.sv(x, env) for x in it_expr.elts]
+                if all(x is not None and x.isvec for x in ss):
+                    elem.sym = SV(isvec=True, unorm=all(x.unorm for x in ss), vid=self.new_vid())
+        if it.items is not None and isinstance(t, (ast.Tuple, ast.List)) and False:
+            pass
+        self.assign(t, elem, None, env, node)
+        return n
+
+    def _as_product(self, e, at):
+        """arguments of `itertools.product(a, b, ...)` when the iterable `e` is that product (possibly bound to a local, wrapped in
+        list() / tuple() / [*...]); None otherwise"""
+        if not hasattr(self, "_b"):
+            self._b = sym.Bindings(self.fn)
+        if isinstance(e, ast.Name):
+            e = self._b.resolve(e, at=at) if isinstance(at, ast.AST) and getattr(at, "_parent", None) is not None else self._b.resolve(e)
+        for _ in range(3):
+            if isinstance(e, ast.Call) and au.call_tail(e) in ("list", "tuple") and len(e.args) == 1:
+                e = e.args[0]
+            elif isinstance(e, (ast.List, ast.Tuple)) and len(e.elts) == 1 and isinstance(e.elts[0], ast.Starred):
+                e = e.elts[0].value
+        if isinstance(e, ast.Call) and au.call_tail(e) == "product" and e.args and not e.keywords:
+            return list(e.args)
+        return None
 
     def unbind_loop(self, st):
         for k in [k for k, v in self.loop_len.items() if v[0] is st]:
@@ -742,6 +1182,8 @@ class Interp:
     # ------------------------------------------------------------------ assignment targets
     def assign(self, t, v, value_node, env, st):
         if isinstance(t, ast.Name):
+            if self.cfg.unit and v.sym is None and v.deg in (F0, ANY) and v.shape == () and v.aff in (F0, ANY):
+                v = v.copy(sym=SV(sx=Rat(Poly.atom(UNK + t.id + self.new_vid()))))
             env[t.id] = v
             return
         if isinstance(t, (ast.Tuple, ast.List)):
@@ -750,8 +1192,15 @@ class Interp:
                     self.assign(x, y, None, env, st)
             else:
                 el = AV(v.deg, v.aff, v.deps, v.shape[1:] if v.shape else None, None, None, v.missing, v.unit)
-                for x in t.elts:
-                    self.assign(x, el.copy(), None, env, st)
+                parts = v.sym.comps if (v.sym is not None and v.sym.comps is not None and not v.sym.isvec and len(v.sym.comps) == len(t.elts)) else None
+                for k_, x in enumerate(t.elts):
+                    e2 = el.copy()
+                    if parts is not None and parts[k_] is not None:
+                        e2.sym = SV(sx=parts[k_])
+                        e2.sym.arr = bool(v.sym.arr)
+                        if e2.shape is None:
+                            e2.shape = ()
+                    self.assign(x, e2, None, env, st)
             return
         if isinstance(t, ast.Subscript):
             root = _root(t.value)
@@ -762,14 +1211,16 @@ class Interp:
                     m = env[root]
                     nv, bad = elem_join(m.verts, v)
                     if bad:
-                        self.event(st, "mixed-degree", (m.verts.deg, v.deg))
+                        # an entry is *replaced*: a loop that rescales every vertex of a unit shape passes through a state
+                        # with entries of two degrees; the stored value itself is checked as a sink
+                        nv.deg = v.deg
                     env[root] = m.copy(verts=nv)
                 return
             if isinstance(t.value, ast.Name) and t.value.id in env:
                 cur = env[t.value.id]
                 nv, bad = elem_join(cur, v)
                 if bad:
-                    self.event(st, "mixed-degree", (cur.deg, v.deg))
+                    nv.deg = v.deg
                 nv.deps = dunion(cur.deps, v.deps)
                 nv.shape = cur.shape
                 env[t.value.id] = nv
@@ -806,6 +1257,68 @@ class Interp:
                 return
         self.vertex_stores.append((st, v.copy()))
 
+    PURE_STATEMENT_CALLS = ("print", "check_argument", "warn", "debug", "info", "warning", "error", "log", "seed", "append", "extend", "add",
+                            "assert_", "isinstance", "len")
+
+    def may_write(self, c, env):
+        """a call whose value is discarded works by side effect: the local objects it receives (arguments, receiver) may have been
+        written with anything - their provenance is no longer known (a dependence cannot be refuted through them)"""
+        tail = au.call_tail(c)
+        if tail in self.PURE_STATEMENT_CALLS or any(k.arg == "out" for k in c.keywords):
+            return
+        touched = [a for a in c.args if isinstance(a, ast.Name)] + [k.value for k in c.keywords if isinstance(k.value, ast.Name)]
+        if isinstance(c.func, ast.Attribute):
+            r = c.func.value
+            while isinstance(r, (ast.Attribute, ast.Subscript)):
+                r = r.value
+            if isinstance(r, ast.Name) and not _is_module(r):
+                touched.append(r)
+        for n in touched:
+            if n.id in env and n.id not in self.env0:
+                v = env[n.id]
+                nv = v.copy(deps=dunion(v.deps, ALL))
+                if nv.verts is not None:
+                    nv.verts = nv.verts.copy(deps=dunion(nv.verts.deps, ALL))
+                env[n.id] = nv
+
+    def _table_entry(self, arg, env, st, cur):
+        """symbolic facts of a table filled by `T.append(f(j))` in a `for j in range(n)` loop: its generic entry is f at the index of
+        the range (so that tables filled by the same loop, or by loops over the same range, are index-aligned)"""
+        s_ = self.sv(arg, env)
+        if s_ is None or s_.arr or (cur.sym is not None and not cur.sym.arr):
+            return None
+        ren = {}
+        for name, (loop, n_) in self.loop_len.items():
+            if isinstance(loop, (ast.For, ast.AsyncFor)) and isinstance(loop.iter, ast.Call) and au.call_tail(loop.iter) == "range" \
+                    and any(a is loop for a in au.ancestors(st)):
+                ren[name] = "idx" + GEN + "⟨" + ", ".join(au.src(a) for a in loop.iter.args) + "⟩"
+        if not ren:
+            return None
+
+        def f(a):
+            for k, v in ren.items():
+                if a == k:
+                    return v
+                for pre in ("cos⟨", "sin⟨", "sqrt⟨"):
+                    if a.startswith(pre):
+                        import re
+                        b = re.sub(r"(?<![A-Za-z0-9_.•@])%s(?![A-Za-z0-9_])" % re.escape(k), v, a)
+                        if b != a:
+                            if a in self.trig:
+                                self.trig[b] = re.sub(r"(?<![A-Za-z0-9_.•@])%s(?![A-Za-z0-9_])" % re.escape(k), v, self.trig[a])
+                            if a in self.sq:
+                                self.sq[b] = rename_poly(self.sq[a], f)
+                            return b
+            return a
+
+        def rr(x):
+            return None if x is None else Rat(rename_poly(x.num, f), rename_poly(x.den, f))
+        out = SV(rr(s_.sx), [rr(c_) for c_ in s_.comps] if s_.comps is not None else None, s_.isvec, s_.unorm, False, None, None, s_.refuted)
+        out.arr = True
+        if cur.sym is not None and cur.sym.arr and cur.sym.sx is not None and out.sx is not None and not cur.sym.sx.same(out.sx):
+            return None        # entries of different forms
+        return out
+
     def call_effect(self, c, env, st):
         f = c.func
         if isinstance(f, ast.Attribute) and f.attr in ("append", "extend", "add") and c.args:
@@ -824,17 +1337,23 @@ class Interp:
                     env[root] = m.copy(verts=nv)
                 return
             if isinstance(f.value, ast.Name) and f.value.id in env:
+                self.appended[id(c)] = v.shape
                 cur = env[f.value.id]
                 nv, bad = elem_join(cur, v)
                 if bad:
                     self.event(st, "mixed-degree", (cur.deg, v.deg))
                 nv.shape = (None,)
+                if v.verts is not None:       # a list of meshes: the coordinates of its elements
+                    nv.verts = v.verts if cur.verts is None else elem_join(cur.verts, v.verts)[0]
+                if self.cfg.unit and f.attr == "append":
+                    nv.sym = self._table_entry(c.args[0], env, st, cur)
                 env[f.value.id] = nv
                 return
         self.ev(c, env)
 
     # ------------------------------------------------------------------ expressions
     def ev(self, e, env):
+        self.cur_env = env
         m = getattr(self, "ev_" + type(e).__name__, None)
         if m is None:
             return unk(dunion(*[self.ev(c, env).deps for c in ast.iter_child_nodes(e) if isinstance(c, ast.expr)]))
@@ -843,6 +1362,8 @@ class Interp:
     def ev_Constant(self, e, env):
         if isinstance(e.value, (int, float)) and not isinstance(e.value, bool):
             return lit()
+        if isinstance(e.value, str):
+            return AV(F0, F0, frozenset(), (Poly.const(len(e.value)),))      # iterating "xyz" runs 3 times
         return scalar0()
 
     def ev_Name(self, e, env):
@@ -850,7 +1371,42 @@ class Interp:
             return env[e.id]
         if e.id == "pi":
             return lit()
-        return unk()
+        if e.id in self.assigned:
+            return unk(ALL)
+        g = self._module_constant(e.id)
+        return g if g is not None else unk()
+
+    def _module_constant(self, name):
+        """abstract value of a module-level constant table (literal numbers / Vec / tuples thereof), else None"""
+        repo = self.cfg.repo
+        if repo is None or self.depth > 3:
+            return None
+        cache = self.__dict__.setdefault("_gcache", {})
+        if name in cache:
+            return cache[name]
+        cache[name] = None
+        try:
+            r = repo.resolve(self.cfg.modname, name)
+        except Exception:
+            r = None
+        if r and r[0] == "var" and r[1] in repo.modules:
+            for st in repo.modules[r[1]].tree.body:
+                if isinstance(st, (ast.Assign, ast.AnnAssign)) and st.value is not None:
+                    tg = st.targets if isinstance(st, ast.Assign) else [st.target]
+                    if any(isinstance(t, ast.Name) and t.id == r[2] for t in tg):
+                        sub = Interp(ast.parse("def _g(): pass").body[0], Config(self.cfg.geo, repo, r[1]), args={}, depth=self.depth + 1)
+                        try:
+                            cache[name] = sub.ev(st.value, {})
+                        except Exception:
+                            cache[name] = None
+        return cache[name]
+
+    def ev_NamedExpr(self, e, env):
+        v = self.ev(e.value, env)
+        if self.cfg.unit:
+            v = v.copy(sym=self.sv(e.value, env))
+        env[e.target.id] = v
+        return v
 
     def ev_Attribute(self, e, env):
         c = au.chain(e)
@@ -865,7 +1421,9 @@ class Interp:
         if e.attr == "vertices":
             if base.verts is not None:
                 return base.verts
-            return AV(F1, F1, base.deps, None)
+            return AV(F1, F1, base.deps, (None, None))
+        if e.attr == "_data":
+            return base.copy(items=None)
         if e.attr == "mesh" and base.verts is not None:
             return base
         if e.attr == "T":
@@ -877,16 +1435,48 @@ class Interp:
         return unk(base.deps)
 
     def ev_Subscript(self, e, env):
+        c_ = au.chain(e.value)
+        if c_ and c_[-1] in ("c_", "r_") and c_[0] in ("np", "numpy"):
+            parts = [self.ev(x, env) for x in (e.slice.elts if isinstance(e.slice, ast.Tuple) else [e.slice])]
+            out = self.collect(parts, e)
+            if c_[-1] == "c_" and parts and all(p_.shape and len(p_.shape) == 1 and isinstance(p_.shape[0], Poly) and p_.shape[0] == parts[0].shape[0] for p_ in parts):
+                out.shape = (parts[0].shape[0], Poly.const(len(parts)))
+            return out
         base = self.ev(e.value, env)
         ideps = self.ev(e.slice, env).deps if not isinstance(e.slice, ast.Slice) else frozenset()
         shape = None
         if base.shape is not None and base.shape:
             if isinstance(e.slice, ast.Slice):
-                shape = (None,) + tuple(base.shape[1:])
+                full = e.slice.lower is None and e.slice.upper is None and e.slice.step is None
+                shape = ((base.shape[0] if full else None),) + tuple(base.shape[1:])
             elif isinstance(e.slice, ast.Tuple):
-                shape = None
+                dims, rest = [], list(base.shape)
+                ok = True
+                for x in e.slice.elts:
+                    if (isinstance(x, ast.Constant) and x.value is None) or (isinstance(x, ast.Attribute) and x.attr == "newaxis"):
+                        dims.append(Poly.const(1))
+                        continue
+                    if isinstance(x, ast.Constant) and x.value is Ellipsis:
+                        ok = False
+                        break
+                    d0 = rest.pop(0) if rest else None
+                    if isinstance(x, ast.Slice):
+                        dims.append(d0 if (x.lower is None and x.upper is None and x.step is None) else None)
+                    else:
+                        xv = self.ev(x, env)
+                        if xv.shape:       # an index array along this axis
+                            dims.extend(xv.shape)
+                shape = tuple(dims + rest) if ok else None
             else:
-                shape = tuple(base.shape[1:])
+                iv = self.ev(e.slice, env)
+                if iv.shape:               # an index array selects rows: leading dimension of the index
+                    shape = tuple(iv.shape) + tuple(base.shape[1:])
+                else:
+                    shape = tuple(base.shape[1:])
+        elif base.shape is None and not isinstance(e.slice, (ast.Slice, ast.Tuple)):
+            iv = self.ev(e.slice, env)
+            if iv.shape:
+                shape = tuple(iv.shape) + (None,)
         if base.items is not None and isinstance(au.const(e.slice), int) and 0 <= au.const(e.slice) < len(base.items):
             return base.items[au.const(e.slice)]
         return AV(base.deg, base.aff, dunion(base.deps, ideps), shape, None, None, base.missing, base.unit)
@@ -896,7 +1486,17 @@ class Interp:
 
     def ev_Tuple(self, e, env):
         items = [self.ev(x.value if isinstance(x, ast.Starred) else x, env) for x in e.elts]
-        out = self.collect(items, e, shape=(Poly.const(len(items)),), keep_items=True)
+        if any(isinstance(x, ast.Starred) for x in e.elts):
+            if len(e.elts) == 1:
+                v = items[0]
+                return AV(v.deg, v.aff, v.deps, v.shape, None, v.verts, v.missing, v.unit)      # [*x] is list(x)
+            return self.collect(items, e, shape=(None,), keep_items=False)
+        shp = (Poly.const(len(items)),)
+        if items and all(it.shape is not None and it.shape == items[0].shape for it in items):
+            shp = shp + tuple(items[0].shape)
+        elif items and any(it.shape is None or it.shape != () for it in items):
+            shp = shp + (None,)        # rows of unknown / unequal length: only the number of items is known
+        out = self.collect(items, e, shape=shp, keep_items=True)
         if not items:
             out.deps = TOP      # empty container: no element constrains the dependences yet
         return out
@@ -926,14 +1526,25 @@ class Interp:
         return v.copy(items=None, verts=None)
 
     def ev_BoolOp(self, e, env):
-        return scalar0(dunion(*[self.ev(v, env).deps for v in e.values]))
+        vals = [self.ev(v, env) for v in e.values]
+        if isinstance(e.op, ast.Or) and len(vals) == 2 and isinstance(e.values[0], ast.Name):
+            # `p or default`: default filling
+            j = join_av(vals[0], vals[1])
+            return j.copy(deps=dunion(vals[0].deps, vals[1].deps))
+        return scalar0(dunion(*[v.deps for v in vals]))
 
     def ev_Compare(self, e, env):
         return scalar0(dunion(self.ev(e.left, env).deps, *[self.ev(v, env).deps for v in e.comparators]))
 
     def ev_IfExp(self, e, env):
-        return join_av(self.ev(e.body, env), self.ev(e.orelse, env),
-                       f"`{au.src(e.test)}` holds", f"`{au.src(e.test)}` fails")
+        a, b = self.ev(e.body, env), self.ev(e.orelse, env)
+        j = join_av(a, b, f"`{au.src(e.test)}` holds", f"`{au.src(e.test)}` fails")
+        nn = _none_test(e.test)
+        if nn is not None and nn[0] in env:
+            # `default if p is None else p`: the default stands for the parameter
+            j = j.copy(deps=dunion(a.deps, b.deps))
+            j.missing = {}
+        return j
 
     def ev_BinOp(self, e, env):
         a, b = self.ev(e.left, env), self.ev(e.right, env)
@@ -974,17 +1585,17 @@ class Interp:
         env2 = dict(env)
         n = None
         for k, g in enumerate(e.generators):
-            it = self.ev(g.iter, env2)
-            if k == 0 and not g.ifs and it.shape:
-                n = it.shape[0]
-            if isinstance(g.iter, ast.Call) and au.call_tail(g.iter) == "range":
-                el = scalar0(it.deps)
-            else:
-                el = AV(it.deg, it.aff, it.deps, it.shape[1:] if it.shape else None, None, None, it.missing, it.unit)
-            self.assign(g.target, el, None, env2, e)
+            nk = self.bind_iter(g.target, g.iter, env2, e, GEN)
+            for name in au.assigned_names(g.target):
+                self.loop_len.pop(name, None)
+            if k == 0 and not g.ifs:
+                n = nk
+        self.cur_env = env2
         v = self.ev(e.elt, env2)
+        if len(e.generators) > 1:
+            n = None
         return AV(v.deg, v.aff, v.deps, ((n,) + tuple(v.shape)) if (len(e.generators) == 1 and v.shape is not None) else (n,),
-                  None, None, v.missing, v.unit)
+                  None, v.verts, v.missing, v.unit)
 
     ev_GeneratorExp = ev_ListComp
     ev_SetComp = ev_ListComp
@@ -996,7 +1607,7 @@ class Interp:
         return scalar0()
 
     def ev_Lambda(self, e, env):
-        return unk()
+        return unk(ALL)
 
     # ------------------------------------------------------------------ calls
     def kw(self, c, name, pos=None):
@@ -1008,6 +1619,19 @@ class Interp:
         return None
 
     def ev_Call(self, c, env):
+        out = self._ev_Call(c, env)
+        okw = next((k.value for k in c.keywords if k.arg == "out"), None)
+        if isinstance(okw, ast.Name) and okw.id in env:
+            cur = env[okw.id]
+            tail_ = au.call_tail(c)
+            if tail_ in ("add", "subtract", "multiply", "divide", "true_divide") and len(c.args) >= 2:
+                op = {"add": ast.Add(), "subtract": ast.Sub(), "multiply": ast.Mult()}.get(tail_, ast.Div())
+                out = self.binop(op, self.ev(c.args[0], env), self.ev(c.args[1], env), c)
+            nv = out.copy(shape=cur.shape if cur.shape is not None else out.shape, items=None, verts=None)
+            env[okw.id] = nv
+        return out
+
+    def _ev_Call(self, c, env):
         tail = au.call_tail(c)
         name = au.call_name(c) or ""
         args = [self.ev(a, env) for a in c.args]
@@ -1019,7 +1643,8 @@ class Interp:
         first = args[0] if args else recv
 
         # ---- random draws
-        if "random" in name.split(".")[:-1] or tail in ("random", "random_sample", "rand", "normal", "uniform", "randn", "choice"):
+        if "random" in name.split(".")[:-1] or tail in ("random", "random_sample", "rand", "normal", "uniform", "randn", "choice",
+                                                          "standard_normal", "ranf"):
             if tail in ("normal", "uniform"):
                 lo, hi = self.kw(c, "loc" if tail == "normal" else "low", 0), self.kw(c, "scale" if tail == "normal" else "high", 1)
                 d = ANY
@@ -1029,9 +1654,14 @@ class Interp:
                 size = self.kw(c, "size", 2)
                 return AV(F0 if d == ANY else d, F0, alldeps, shape_of_size(size, self.topoly), None, None, None,
                           unit=False)
-            if tail in ("random", "random_sample", "rand"):
+            if tail in ("random", "random_sample", "ranf", "sample"):
                 size = self.kw(c, "size", 0)
                 return AV(F0, F0, alldeps, shape_of_size(size, self.topoly), unit=True)
+            if tail in ("standard_normal", "standard_exponential", "standard_cauchy"):
+                size = self.kw(c, "size", 0)
+                return AV(F0, F0, alldeps, shape_of_size(size, self.topoly))
+            if tail == "rand":
+                return AV(F0, F0, alldeps, tuple(self.topoly(a) for a in c.args), unit=True)
             if tail == "choice":
                 size = self.kw(c, "size", 1)
                 return AV(F0, F0, alldeps, shape_of_size(size, self.topoly))
@@ -1053,13 +1683,44 @@ class Interp:
             return args[0]
         if tail == "len":
             return scalar0(alldeps)
+        if tail == "divmod" and len(args) == 2:
+            return AV(F0, F0, alldeps, (Poly.const(2),), [scalar0(alldeps), scalar0(alldeps)])
+        if tail == "merge" and args:
+            src_av = args[0]
+            if src_av.verts is not None:
+                return AV(None, None, alldeps, None, None, src_av.verts)
         if tail in STACK and args:
             v = args[0]
             shape = None
-            if tail in ("vstack", "row_stack", "stack") and v.items and all(i.shape is not None and len(i.shape) == 1 for i in v.items):
+            axis_node = self.kw(c, "axis", 1 if tail in ("stack", "concatenate") else None)
+            axis = au.const(axis_node) if axis_node is not None else None
+            rows_like = None            # (k, s0): k sequences of s0 entries each
+            if v.items and all(i_.shape is not None and len(i_.shape) >= 1 for i_ in v.items):
                 s0 = v.items[0].shape[0]
-                if all(i.shape[0] is not None and i.shape[0] == s0 for i in v.items):
-                    shape = (Poly.const(len(v.items)), s0)
+                if all(i_.shape[0] is not None and isinstance(s0, Poly) and i_.shape[0] == s0 for i_ in v.items) and all(len(i_.shape) == 1 for i_ in v.items):
+                    rows_like = (Poly.const(len(v.items)), s0)
+            elif v.items is None and v.shape is not None and len(v.shape) == 2:
+                rows_like = tuple(v.shape)      # a comprehension of equally long sequences
+            if tail in ("vstack", "row_stack") and rows_like is not None:
+                shape = rows_like
+            elif tail == "stack" and rows_like is not None:
+                if axis_node is None or axis == 0:
+                    shape = rows_like
+                elif axis in (1, -1):
+                    shape = (rows_like[1], rows_like[0])
+            elif tail == "column_stack" and rows_like is not None:
+                shape = (rows_like[1], rows_like[0])
+            elif tail in ("concatenate", "vstack", "row_stack") and v.items and (axis_node is None or axis == 0) \
+                    and all(i_.shape and isinstance(i_.shape[0], Poly) for i_ in v.items) and all(len(i_.shape) == len(v.items[0].shape) for i_ in v.items):
+                tot = Poly()
+                for i_ in v.items:
+                    tot = tot + i_.shape[0]
+                shape = (tot,) + tuple(v.items[0].shape[1:])
+            elif tail == "hstack" and v.items and all(i_.shape and len(i_.shape) == 1 and isinstance(i_.shape[0], Poly) for i_ in v.items):
+                tot = Poly()
+                for i_ in v.items:
+                    tot = tot + i_.shape[0]
+                shape = (tot,)
             return AV(v.deg, v.aff, v.deps, shape, None, None, v.missing)
         if tail == "meshgrid":
             return self.collect(args, c)
@@ -1070,7 +1731,32 @@ class Interp:
             shp = c.args[0] if recv is not None and c.args else (c.args[1] if len(c.args) > 1 else None)
             if recv is not None and len(c.args) > 1:
                 shp = ast.Tuple(list(c.args), ast.Load())
-            return src_av.copy(shape=shape_of_size(shp, self.topoly), items=None) if src_av is not None else unk(alldeps)
+            if src_av is None:
+                return unk(alldeps)
+            new_shape = list(shape_of_size(shp, self.topoly))
+            neg = [k_ for k_, d_ in enumerate(new_shape) if isinstance(d_, Poly) and d_.is_const() and d_.const_value() < 0]
+            if neg:
+                inferred = None
+                if len(neg) == 1 and src_av.shape and all(isinstance(d_, Poly) for d_ in src_av.shape) \
+                        and all(isinstance(d_, Poly) and d_.is_const() and d_.const_value() > 0 for k_, d_ in enumerate(new_shape) if k_ != neg[0]):
+                    total = Poly.const(1)
+                    for d_ in src_av.shape:
+                        total = total * d_
+                    div = Fraction(1)
+                    for k_, d_ in enumerate(new_shape):
+                        if k_ != neg[0]:
+                            div *= d_.const_value()
+                    cand = total.scale(1 / div)
+                    if all(v_.denominator == 1 for v_ in cand.t.values()):
+                        inferred = cand
+                for k_ in neg:
+                    new_shape[k_] = inferred if len(neg) == 1 else None
+            return src_av.copy(shape=tuple(new_shape), items=None)
+        if tail in ("transpose", "swapaxes") and first is not None:
+            src_av = recv if (recv is not None and not c.args) or (recv is not None and tail == "swapaxes") else first
+            if src_av is not None and src_av.shape is not None and len(src_av.shape) == 2:
+                return src_av.copy(shape=(src_av.shape[1], src_av.shape[0]), items=None)
+            return (src_av or first).copy(shape=None, items=None)
         if tail in ("sqrt", "cbrt"):
             d = first.deg if first is not None else None
             k = 2 if tail == "sqrt" else 3
@@ -1081,7 +1767,7 @@ class Interp:
             return self.binop(ast.Pow(), args[0], args[1], ast.BinOp(c.args[0], ast.Pow(), c.args[1]))
         if tail in PURE0:
             d = first.deg if first is not None else None
-            return AV(d if d in (F0, ANY) else None, F0, alldeps, first.shape if first is not None else None)
+            return AV(ANY if d == ANY else F0, F0, alldeps, first.shape if first is not None else None)
         if tail == "norm":
             return AV(first.deg if first is not None else None, F0, alldeps, None)
         if tail in ("normalized", "normalize"):
@@ -1091,6 +1777,18 @@ class Interp:
             return args[0].copy(deps=alldeps, items=None, verts=None)
         if tail in PROD and len(args) == 2:
             return AV(mul_deg(args[0].deg, args[1].deg), mul_aff(args[0].aff, args[1].aff), alldeps, None)
+        if tail == "take" and len(args) >= 2:
+            # np.take(a, idx, axis=0) is a[idx]
+            a_, i_ = args[0], args[1]
+            shp = (tuple(i_.shape) + tuple(a_.shape[1:] if a_.shape else (None,))) if i_.shape else None
+            return AV(a_.deg, a_.aff, alldeps, shp, None, None, a_.missing, a_.unit)
+        if tail in ("einsum", "tensordot", "matmul", "inner") and len(c.args) >= 2:
+            ops = [self.ev(a, env) for a in c.args if not (isinstance(a, ast.Constant) and isinstance(a.value, str))]
+            d = ANY
+            for o in ops:
+                d = mul_deg(d, o.deg)
+            rows = next((o.shape[0] for o in ops if o.shape), None)
+            return AV(d, None, alldeps, (rows, None) if rows is not None else None)
         if tail in MESHY:
             src_av = first
             if src_av is None:
@@ -1107,12 +1805,46 @@ class Interp:
                 shape = v.shape
                 if tail in ("sum", "mean", "max", "min") and self.kw(c, "axis") is None:
                     shape = ()
-                return AV(v.deg, v.aff, alldeps, shape, None, None, v.missing, v.unit)
+                out = AV(v.deg, v.aff, alldeps, shape, None, None, v.missing, v.unit)
+                if tail in ("int", "float", "round") and len(c.args) == 1 and not c.keywords:
+                    out.val = v.val
+                if tail in ("copy", "deepcopy") and v.verts is not None:
+                    out.verts = v.verts.copy()       # a copy of a mesh carries (a copy of) its coordinates
+                return out
             if vals:
                 return self.collect(vals, c, strict=(tail == "Vec")).copy(deps=alldeps)
             return lit()
+        # ---- a nested function / lambda of this function: interpreted with the current environment as its closure
+        if isinstance(c.func, ast.Name) and c.func.id in self.local_funcs and self.depth < 3 \
+                and not any(isinstance(a, ast.Starred) for a in c.args):
+            callee = self.local_funcs[c.func.id]
+            ps = [p.arg for p in callee.args.posonlyargs + callee.args.args]
+            bound = dict(zip(ps, args))
+            bound.update(kws)
+            if isinstance(callee, ast.Lambda):
+                env2 = dict(env)
+                for p_ in au.params(callee):
+                    env2[p_] = bound.get(p_, unk(ALL))
+                out = self.ev(callee.body, env2)
+                if self.cfg.unit:
+                    out = out.copy(sym=self.sv(callee.body, env2))
+                return out
+            sub = Interp(callee, Config(self.cfg.geo, self.cfg.repo, self.cfg.modname, unit=self.cfg.unit), args=bound, depth=self.depth + 1,
+                         closure=env, local_funcs=self.local_funcs).run()
+            self.trig.update(sub.trig)
+            self.sq.update(sub.sq)
+            self.triples.update(sub.triples)
+            for k_, o_ in sub.unit_obl.items():
+                self.unit_obl.setdefault(k_, o_)
+            self.events += [ev_ for ev_ in sub.events if ev_ not in self.events]
+            out = None
+            for _, v in sub.returns:
+                out = v if out is None else join_av(out, v)
+            return out if out is not None else unk(alldeps)
+        if isinstance(c.func, ast.Name) and c.func.id in self.assigned and c.func.id not in ("range", "len", "zip", "enumerate"):
+            return unk(ALL)      # a callable bound locally that the interpreter cannot see through: may capture anything
         # ---- a function of the package: interpret its body with the actual arguments
-        if self.cfg.repo is not None and self.depth < 2 and isinstance(c.func, ast.Name):
+        if self.cfg.repo is not None and self.depth < 3 and isinstance(c.func, ast.Name):
             r = self.cfg.repo.resolve_func(self.cfg.modname, c.func.id)
             if r and r[1] is not None and not any(isinstance(a, ast.Starred) for a in c.args) and r[1] is not self.fn \
                     and (r[0].name == "mouette." + self.cfg.modname.replace("mouette.", "") or r[0].name.startswith("mouette.procedural")):
@@ -1124,12 +1856,45 @@ class Interp:
                 for k, v in kws.items():
                     bound[k] = v
                 sub = Interp(callee, Config(self.cfg.geo, self.cfg.repo, r[0].name, unit=self.cfg.unit), args=bound, depth=self.depth + 1).run()
+                self.trig.update(sub.trig)
+                self.sq.update(sub.sq)
+                self.triples.update(sub.triples)
+                if callee.name.startswith("_"):     # a private helper works for its caller; another public generator answers for itself
+                    for k_, o_ in sub.unit_obl.items():
+                        self.unit_obl.setdefault(k_, o_)
+                self.events += [ev_ for ev_ in sub.events if ev_ not in self.events]
                 out = None
                 for _, v in sub.returns:
                     out = v if out is None else join_av(out, v)
                 if out is not None:
                     return out
         return unk(alldeps)
+
+
+def _countlike(fn, p, default):
+    """a parameter that is visibly an integer count, a boolean switch or a string option (annotation or literal default)"""
+    a = fn.args
+    for x in a.posonlyargs + a.args + a.kwonlyargs:
+        if x.arg == p and x.annotation is not None:
+            ann = au.src(x.annotation)
+            if ann in ("int", "bool", "str"):
+                return True
+            if ann in ("float", "Vec", "np.ndarray", "numpy.ndarray"):
+                return False
+    if isinstance(default, ast.Constant) and isinstance(default.value, (int, bool, str)) and not isinstance(default.value, float):
+        return True
+    return default is None and p in ("n", "N", "n_pts", "k", "dim", "res", "mode")
+
+
+def _none_test(test):
+    """`p is None` / `p == None` -> (p, True);  `p is not None` / `p != None` -> (p, False);  else None"""
+    if isinstance(test, ast.Compare) and len(test.ops) == 1 and isinstance(test.left, ast.Name) \
+            and isinstance(test.comparators[0], ast.Constant) and test.comparators[0].value is None:
+        if isinstance(test.ops[0], (ast.Is, ast.Eq)):
+            return test.left.id, True
+        if isinstance(test.ops[0], (ast.IsNot, ast.NotEq)):
+            return test.left.id, False
+    return None
 
 
 def _load(t):
